@@ -26,6 +26,7 @@ def run(ctx):
         res, bad, _ = su.run_sessions(ctx, vh, [case], tag="replay")
         su.report(ctx, PROP, [case], res, bad)
         ctx.traces += 1
+        ctx.samples.append(case)
         return
     cases, npinned = su.build_cases(ctx, pairs)
     st = next(k for k, c in enumerate(cases) if c.get("pinned") == "straddle-2x60")
